@@ -39,8 +39,9 @@ SET_METHODS = ('add', 'intersection', 'union', 'issubset')
 
 
 class Interp(object):
-    def __init__(self, env=None, max_steps=200000, funcs=None):
+    def __init__(self, env=None, max_steps=200000, funcs=None, extra=None):
         self.env = dict(env or {})
+        self.extra = dict(extra or {})      # further pure callables the analyser allows by name (sqrt, exp, ...)
         self.steps = 0
         self.max_steps = max_steps
         self.funcs = funcs or {}     # name -> ast.FunctionDef callable from the code
@@ -63,7 +64,7 @@ class Interp(object):
                 di = i - (len(names) - len(defaults))
                 if di < 0: raise AnalysisError('missing argument %s' % n)
                 env[n] = self.expr(defaults[di])
-        sub = Interp(dict(self.env, **env), self.max_steps, self.funcs)
+        sub = Interp(dict(self.env, **env), self.max_steps, self.funcs, self.extra)
         sub.steps = self.steps
         try:
             sub.block(fnode.body)
@@ -247,6 +248,9 @@ class Interp(object):
         args = [self.expr(a) for a in n.args]
         f = n.func
         if isinstance(f, ast.Name):
+            if f.id in self.extra and f.id not in self.env:
+                try: return self.extra[f.id](*args, **kwargs)
+                except Exception as e: raise AnalysisError('%s failed: %r' % (f.id, e))
             if f.id in self.funcs and f.id not in self.env:
                 return self.call_function(self.funcs[f.id], args, kwargs)
             fn = self.expr(f)
